@@ -516,6 +516,12 @@ class Item:
                 base = expr_s[: -len(".iter().enumerate()")]
                 head = f"let mut {ctr}: usize = 0;\n while {ctr} < {base}.len()"
                 first = f" let {m_enum.group(1)} = {ctr}; let {m_enum.group(2)} = {base}[{ctr}]; {ctr} += 1;"
+            elif m_ref and re.fullmatch(r"(.+)\.iter\(\)\.take\((.+)\)", expr_s):
+                # `for &x in E.iter().take(N)`: the first min(N, E.len()) elements
+                mt = re.fullmatch(r"(.+)\.iter\(\)\.take\((.+)\)", expr_s)
+                base, lim = mt.group(1), mt.group(2)
+                head = f"let mut {ctr}: usize = 0;\n while {ctr} < {base}.len() && {ctr} < {lim}"
+                first = f" let {m_ref.group(1)} = {base}[{ctr}]; {ctr} += 1;"
             elif m_ref:
                 base = expr_s
                 if base.endswith(".iter()"):
